@@ -50,7 +50,7 @@ impl Check for C23 {
         vec![GenSpec { name: "mixed", quick: 27_000, thorough: 900_000 }]
     }
     fn rule(&self) -> &'static str {
-        "A mixed workload drawing round-robin from the generators of this framework, all of which emit only well-formed programs in C23's sense (operands of the documented kinds, every FD operand given a domain somewhere in its conjunction, tiny integers): pure tree programs, tree programs with compound terms and wildcards, search programs (nested disjunctions, member/append/rember, recursive closures, match), FD programs (aliasing, signed and one-value domains, distinctfd), FD programs with structured query variables, CLP(Z), tree disequalities mixed with FD domains in any order, for/project programs, committed-choice programs. Every program is built, solved to exhaustion (or 300 answers / a step budget) through the public query iterator and every answer is formatted with Display; any panic other than the harness's own step-budget signal is a violation (message and file:line recorded). The other 23 checks report panics of their own workloads under their own property as well. Distinct = distinct program text; non-trivial = every program."
+        "A mixed workload drawing round-robin from the generators of this framework, all of which emit only well-formed programs in C23's sense (operands of the documented kinds, every FD operand given a domain somewhere in its conjunction, tiny integers): pure tree programs, tree programs with compound terms and wildcards, search programs (nested disjunctions, member/append/rember, recursive closures, match), FD programs (aliasing, signed and one-value domains, several domains on one variable incl. interleaving sparse sets with an empty meet, distinctfd), FD programs with structured query variables, CLP(Z), tree disequalities mixed with FD domains in any order, for/project programs, committed-choice programs. Every program is built, solved to exhaustion (or 300 answers / a step budget) through the public query iterator and every answer is formatted with Display; any panic other than the harness's own step-budget signal is a violation (message and file:line recorded). The other 23 checks report panics of their own workloads under their own property as well. Distinct = distinct program text; non-trivial = every program."
     }
     fn assumptions(&self) -> Vec<String> {
         vec!["well-formedness is enforced by construction of the generators".into()]
